@@ -302,12 +302,20 @@ class ShapeEval:
                 gens = [g["name"] for g in f.get("generics", []) if g.get("kind") == "type"]
                 actual = [self.tystr(g) for g in self.type_gargs(info)]
                 sub = dict(zip(gens, actual[-len(gens):])) if gens and len(actual) >= len(gens) else {}
-                mapping = {("arg", i + 1, cb.names.get(i + 1)): a for i, a in enumerate(args)}
+                # arguments are values of the caller's body (a `vec![..]` literal is found through the caller's stores): evaluate them there;
+                # what cannot be evaluated on its own (a bare string, a closure) is substituted as a term
+                mapping, env2 = {}, dict(env)
+                for i, a in enumerate(args):
+                    pt = ("arg", i + 1, cb.names.get(i + 1))
+                    try:
+                        env2[pt] = self.ev(b, a, env)
+                    except Unrecognised:
+                        mapping[pt] = a
                 if not hasattr(self, "_tysubst"):
                     self._tysubst = []
                 self._tysubst.append(sub)
                 try:
-                    return self.ev(cb, mir.subst(cb.return_term(), mapping), env)
+                    return self.ev(cb, mir.subst(cb.return_term(), mapping), env2)
                 finally:
                     self._tysubst.pop()
         raise Unrecognised("call to %s is outside the builder vocabulary" % name)
